@@ -215,6 +215,26 @@ def wake1(ctx: Ctx, chk) -> None:
                 where = ctx.loc(f, calls[0])
                 if sets and cnodes and all(any(g.dominates(s, c) for s in sets) for c in cnodes):
                     ok = True
+            # every way of completing the wake announcement releases the buffer: no normal path through a definition
+            # on the chain avoids both the flush and the hand-over to the next definition (an early return for some
+            # kind of node would leave its parked commands unwritten for ever)
+            bypass = None
+            for f0 in tables.chain_defs(ctx, cal, V):
+                fx = ctx.inl(f0, lambda h: not h.name.startswith("handle_") and h.fq not in flush_fqs)
+                fcalls = [x for x in ctx.own_nodes(fx) if isinstance(x, ast.Call) and any(fq.endswith("." + norm(x.func).rsplit(".", 1)[-1]) for fq in flush_fqs)]
+                wrapped_params = ctx.I.wrapped_param_names(f0)
+                deleg = [x for x in ctx.own_nodes(fx) if isinstance(x, ast.Call) and ((isinstance(x.func, ast.Attribute) and isinstance(x.func.value, ast.Call) and norm(x.func.value.func) == "super") or (isinstance(x.func, ast.Name) and x.func.id in wrapped_params))]
+                gx = CFG(fx.node)
+                stop = gx.nodes_where(lambda x: any(x.contains(c) for c in fcalls + deleg))
+                px = gx.reach_avoiding([gx.entry], lambda x: x is gx.exit, lambda x: x in stop, from_succ=False)
+                if px is not None and bypass is None:
+                    bypass = (f0, gx.path_text(px))
+            chk.instance(rule)
+            kb = f"wake-handler-always-flushes@{V}"
+            if bypass is None:
+                chk.ok(rule, kb, "every normal path through the wake handler chain reaches the flush", where, sample=False)
+            else:
+                chk.refute(rule, f"wake-handler::{cal.chain()[-1].func.fq}::bypass", f"the wake announcement of protocol {V} can be handled to completion in {bypass[0].qualname} without releasing the parked commands ({' -> '.join(bypass[1][1:6])}): for the nodes that take this path, commands sent while they were marked sleeping are never written", bypass[0].where, version=V)
             k = f"wake-handler-marks-sleeping@{V}"
             if ok:
                 chk.ok(rule, k, "node.sleeping = True dominates the flush call", where)
